@@ -518,6 +518,32 @@ func (p c13) Run(w *mon.Worker, idx int) mon.Result {
 			return fail("explode(.) left an alias, anchor or merge key behind: %q\n%s", ln, yout)
 		}
 	}
+	// route 2b: the document after one pass through yq itself (`yq .` writes merge keys back as `!!merge <<`
+	// and may re-style nodes): exploding / converting THAT text must give the same value
+	if idx%3 == 0 {
+		saved, serr, span := yqx.Eval(".", text, "yaml", "yaml")
+		res.Evals++
+		if serr != nil || span != nil {
+			return fail("`yq .` failed: %v %v\n%s", serr, span, text)
+		}
+		res.Tags = append(res.Tags, "second_pass")
+		for _, ex := range []string{"explode(.)", "."} {
+			o, e, pn := yqx.Eval(ex, saved, "yaml", "json")
+			res.Evals++
+			if e != nil || pn != nil {
+				return fail("after one pass through `yq .`, `%s` (to JSON) fails: %v %v\n--- yq . ---\n%s", ex, e, pn, saved)
+			}
+			vv, pe := ref.ParseJSONStream(o)
+			if pe != nil || len(vv) != 1 {
+				return fail("after one pass through `yq .`, `%s` printed %q", ex, clipStr(o, 300))
+			}
+			if !sameUnordered(vv[0], want) {
+				if _, ok := explain(vv[0], whole, false); !ok {
+					return fail("after one pass through `yq .`, `%s` resolves aliases/merges differently\n--- yq . ---\n%s expected %s\n observed %s", ex, saved, canon(want), canon(vv[0]))
+				}
+			}
+		}
+	}
 	// route 3: reading every leaf path of the un-exploded document
 	var leaves [][]any
 	want.Walk(nil, func(pth []any, n *ref.V) {
